@@ -26,7 +26,7 @@ func init() {
 	}
 	ExpectedProbes["heap/C15"] = []string{
 		"update-reorders-under-iter", "push-under-iter", "pop-under-iter", "remove-under-iter",
-		"grow-shrink-under-iter", "iter-panicked", "iter-exhausted-clean",
+		"grow-shrink-under-iter", "iter-panicked", "iter-called-again-after-panic", "iter-exhausted-clean",
 	}
 }
 
@@ -84,6 +84,7 @@ type hpIter struct {
 	since     uint8 // kinds of modification since creation / since the first Next (signature naming)
 	sinceFst  uint8
 	touched   bool
+	poisoned  bool // has panicked once
 }
 
 type hpW struct {
@@ -948,7 +949,29 @@ func (w *hpW) iterNext(k int) {
 		if !it.touched {
 			r.Violate("C15", pfx+"panic-on-unchanged", "iterator it%d panicked although no mutator was called since it was created", it.id)
 		}
-		w.dropIter(k)
+		// A panic does not end the obligation: a later call on the same iterator is still judged
+		// (it may panic again; whatever it returns instead must still fit the snapshot).
+		if it.poisoned {
+			w.dropIter(k)
+		} else {
+			it.poisoned = true
+			r.Probe("iter-called-again-after-panic")
+			if r.Choose(2, "drain-after-panic") == 1 {
+				// keep calling it: until it panics again (and is dropped) or reports exhaustion
+				for n := 0; n < 40 && !r.Failed() && !it.exhausted; n++ {
+					at := -1
+					for q, o := range w.iters {
+						if o == it {
+							at = q
+						}
+					}
+					if at < 0 {
+						break
+					}
+					w.iterNext(at)
+				}
+			}
+		}
 		return
 	}
 	// modifications before the first Next are part of the snapshot taken there: blame what came
@@ -963,7 +986,7 @@ func (w *hpW) iterNext(k int) {
 		}
 		return
 	}
-	if it.started && it.addRem != 0 {
+	if it.started && it.addRem != 0 && !it.poisoned {
 		what := "reported exhaustion"
 		if ok {
 			what = "yielded an element"
